@@ -102,3 +102,142 @@ Theorem C09_duplicate_group_counterexample :
 Proof. exact (@C09_duplicate_group_counterexample). Qed.
 Print Assumptions C09_duplicate_group_counterexample.
 
+(* add this Require line (after the file's existing Require line, or right before the appended block:
+   both placements were test-compiled against a copy of the current Properties file) *)
+From MC Require Import Proofs.Round3Proofs.
+
+Theorem C09_aggregate_children_entries :
+  forall (pns : string) (latest : prev) (rest : list prev),
+       aggregate_children pns (latest :: rest) =
+       map (fun e : dentry => Some (snd (agg_entry pns rest e))) (pr_desired latest).
+Proof. exact (@aggregate_children_entries). Qed.
+Print Assumptions C09_aggregate_children_entries.
+
+Theorem C09_unclaimed_child_from_latest :
+  forall (pns : string) (latest : prev) (rest : list prev) (i : nat) (a k n : string) (x : json),
+       all_wf pns rest = true ->
+       nth_error (pr_desired latest) i = Some (a, k, n, x) ->
+       count_listing rest (group_of a, k, n) = 0 ->
+       nth_error (aggregate_children pns (latest :: rest)) i = Some (Some x).
+Proof. exact (@C09_unclaimed_child_from_latest). Qed.
+Print Assumptions C09_unclaimed_child_from_latest.
+
+Theorem C09_child_follows_its_revision_partial :
+  forall (pns : string) (latest : prev) (rest : list prev) (i : nat) (a k n : string)
+         (x : json) (j : nat) (p : prev) (child : json),
+       all_wf pns rest = true ->
+       nth_error (pr_desired latest) i = Some (a, k, n, x) ->
+       count_listing rest (group_of a, k, n) <= 1 ->
+       nth_error rest j = Some p ->
+       listsP p (group_of a, k, n) = true ->
+       find_desired (pr_desired p) (group_of a) k n = Some child ->
+       (get_api_version child =? a) = true ->
+       nth_error (aggregate_children pns (latest :: rest)) i = Some (Some child).
+Proof. exact (@C09_child_follows_its_revision_partial). Qed.
+Print Assumptions C09_child_follows_its_revision_partial.
+
+Theorem C09_claimed_child_other_version :
+  forall (pns : string) (latest : prev) (rest : list prev) (i : nat) (a k n : string)
+         (x : json) (j : nat) (p : prev) (child : json),
+       all_wf pns rest = true ->
+       nth_error (pr_desired latest) i = Some (a, k, n, x) ->
+       count_listing rest (group_of a, k, n) <= 1 ->
+       nth_error rest j = Some p ->
+       listsP p (group_of a, k, n) = true ->
+       find_desired (pr_desired p) (group_of a) k n = Some child ->
+       (get_api_version child =? a) = false -> nth_error (aggregate_children pns (latest :: rest)) i = Some (Some x).
+Proof. exact (@C09_claimed_child_other_version). Qed.
+Print Assumptions C09_claimed_child_other_version.
+
+Theorem C09_claimed_child_not_in_its_answer :
+  forall (pns : string) (latest : prev) (rest : list prev) (i : nat) (a k n : string)
+         (x : json) (j : nat) (p : prev),
+       all_wf pns rest = true ->
+       nth_error (pr_desired latest) i = Some (a, k, n, x) ->
+       count_listing rest (group_of a, k, n) <= 1 ->
+       nth_error rest j = Some p ->
+       listsP p (group_of a, k, n) = true ->
+       find_desired (pr_desired p) (group_of a) k n = None ->
+       nth_error (aggregate_children pns (latest :: rest)) i = Some (Some x).
+Proof. exact (@C09_claimed_child_not_in_its_answer). Qed.
+Print Assumptions C09_claimed_child_not_in_its_answer.
+
+Theorem C09_aggregate_children_follow :
+  forall (pns : string) (latest : prev) (rest : list prev),
+       all_wf pns rest = true -> child_follows pns latest rest (aggregate_children pns (latest :: rest)).
+Proof. exact (@C09_aggregate_children_follow). Qed.
+Print Assumptions C09_aggregate_children_follow.
+
+Theorem C09_child_follows_its_revision_refuted :
+  ~ C09_child_follows_its_revision_statement.
+Proof. exact (@C09_child_follows_its_revision_refuted). Qed.
+Print Assumptions C09_child_follows_its_revision_refuted.
+
+Theorem C09_children_follow_their_revisions :
+  forall (c : ccfg) (k : cache) (parent : json) (observed related : umap) (e : env)
+         (h : list (call * answer)) (r : hook_resp),
+       snd (run (sync_revisions_rolling c k parent observed related) e h) = HRResp r ->
+       exists (claimed : list json) (h2 : list (call * answer)) (l3 : prev) (rest3 : list prev),
+         snd (run (claim_revisions c k parent) e h) = Some claimed /\
+         snd (run (manage_revisions (get_ns parent) (map revision_of_json claimed) (map pr_rev (l3 :: rest3))) e h2) =
+         true /\
+         Forall (fun p : prev => own_answer c parent observed related e (pd p)) (l3 :: rest3) /\
+         child_follows (get_ns parent) l3 rest3 (hr_children r) /\
+         (cache_revisions_gk_unique k = true -> forall key : claim_key, count_listing rest3 key <= 1).
+Proof. exact (@C09_children_follow_their_revisions). Qed.
+Print Assumptions C09_children_follow_their_revisions.
+
+Theorem C09_children_follow_their_revisions_unique :
+  forall (c : ccfg) (k : cache) (parent : json) (observed related : umap) (e : env)
+         (h : list (call * answer)) (r : hook_resp),
+       cache_revisions_gk_unique k = true ->
+       snd (run (sync_revisions_rolling c k parent observed related) e h) = HRResp r ->
+       exists (claimed : list json) (h2 : list (call * answer)) (l3 : prev) (rest3 : list prev),
+         snd (run (claim_revisions c k parent) e h) = Some claimed /\
+         snd (run (manage_revisions (get_ns parent) (map revision_of_json claimed) (map pr_rev (l3 :: rest3))) e h2) =
+         true /\
+         Forall (fun p : prev => own_answer c parent observed related e (pd p)) (l3 :: rest3) /\
+         Datatypes.length (hr_children r) = Datatypes.length (pr_desired l3) /\
+         (forall (i : nat) (a kd n : string) (x : json),
+          nth_error (pr_desired l3) i = Some (a, kd, n, x) ->
+          (count_listing rest3 (group_of a, kd, n) = 0 -> nth_error (hr_children r) i = Some (Some x)) /\
+          (forall (j : nat) (p : prev),
+           nth_error rest3 j = Some p ->
+           listsP p (group_of a, kd, n) = true ->
+           nth_error (hr_children r) i = Some (Some (own_obj (pr_desired p) a kd n x)))).
+Proof. exact (@C09_children_follow_their_revisions_unique). Qed.
+Print Assumptions C09_children_follow_their_revisions_unique.
+
+Theorem C09_child_follows_its_revision_inhabited :
+  all_wf "" [R3C09.old] = true /\
+       nth_error (pr_desired R3C09.latest) 0 = Some ("apps/v1", "Thing", "a", R3C09.thing "apps/v1" "a" "new") /\
+       count_listing [R3C09.old] ("apps", "Thing", "a") = 1 /\
+       listsP R3C09.old (group_of "apps/v1", "Thing", "a") = true /\
+       find_desired (pr_desired R3C09.old) (group_of "apps/v1") "Thing" "a" = Some (R3C09.thing "apps/v1" "a" "old") /\
+       (get_api_version (R3C09.thing "apps/v1" "a" "old") =? "apps/v1") = true /\
+       aggregate_children "" [R3C09.latest; R3C09.old] =
+       [Some (R3C09.thing "apps/v1" "a" "old"); Some (R3C09.thing "apps/v1" "b" "new")] /\
+       count_listing [R3C09.old_c] ("apps", "Thing", "b") = 0 /\
+       aggregate_children "" [R3C09.latest; R3C09.old_c] =
+       [Some (R3C09.thing "apps/v1" "a" "new"); Some (R3C09.thing "apps/v1" "b" "new")].
+Proof. exact (@C09_child_follows_its_revision_inhabited). Qed.
+Print Assumptions C09_child_follows_its_revision_inhabited.
+
+Theorem C09_children_follow_their_revisions_inhabited :
+  cache_revisions_gk_unique (R3X.cache_of R3X.parent R3X.owned) = true /\
+       (exists r : hook_resp,
+          result_of (sync_revisions_rolling R3X.cfg (R3X.cache_of R3X.parent R3X.owned) R3X.parent [] [])
+            (R3X.e_ok R3X.parent false) = HRResp r /\
+          hr_children r = [Some (R3X.thing "apps/v1" "a" "new"); Some (R3X.thing "apps/v1" "b" "old")]) /\
+       (exists r : hook_resp,
+          result_of (sync_revisions_rolling R3X.cfg (R3X.cache_of R3X.parent R3X.owned) R3X.parent [] [])
+            (R3X.e_ok R3X.parent true) = HRResp r /\
+          hr_children r = [Some (R3X.thing "apps/v1" "a" "new"); Some (R3X.thing "apps/v1" "b" "new")]) /\
+       R3X.rev_children_written
+         (trace_of (sync_revisions_rolling R3X.cfg (R3X.cache_of R3X.parent R3X.owned) R3X.parent [] [])
+            (R3X.e_ok R3X.parent true)) = [("p-new", R3X.names ["a"]); ("p-old", R3X.names ["b"])] /\
+       R3X.rev_children_written
+         (trace_of (sync_revisions_rolling R3X.cfg (R3X.cache_of R3X.parent R3X.owned) R3X.parent [] [])
+            (R3X.e_ok R3X.parent false)) = [("p-new", R3X.names ["a"]); ("p-old", R3X.names ["b"])].
+Proof. exact (@C09_children_follow_their_revisions_inhabited). Qed.
+Print Assumptions C09_children_follow_their_revisions_inhabited.
